@@ -131,6 +131,12 @@ func HarnessC13a() {
 		verifClass("C13.isdirty-false-on-emptied-tree", verifAnd(cur.Size() == 0, r0.Size > 0))
 		verifAssert("C13.clean-implies-unchanged", sameContent)
 	}
+	if cl, cerr := cur.Clone(vctx); cerr == nil {
+		if !cl.IsDirty() {
+			verifClass("C13.isdirty-false-on-emptied-tree", verifAnd(cur.Size() == 0, r0.Size > 0))
+			verifAssert("C13.clone-clean-implies-unchanged", sameContent)
+		}
+	}
 	h0 := cur.Height()
 	old := nodesWithRanges(st, r0)
 	nst = st.nStore
